@@ -48,7 +48,8 @@ class C12(TalCheck):
     hold_exceptions = True
     gen_opts = {"on_error": 0.12, "max_sites": 20, "pipes": 0.3,
                 "prefixes": 0.3, "max_depth": 3, "macros": 0.25, "i18n": 0.1,
-                "entities": 0.25, "code": 0.15, "twins": 0.25}
+                "entities": 0.25, "code": 0.15, "twins": 0.25,
+                "pyforms": 0.15}
 
     def gen(self, ch: Choices, tier: str) -> dict:
         if ch.coin(0.35):
